@@ -69,13 +69,16 @@ func runC17(ctx *report.Ctx) {
 			ctx.Violation(report.Violation{Clause: "command-sequence", Witness: "cmds:" + strings.ReplaceAll(srcs[0], "\n", " / "), Detail: mm, Choices: c.Choices(), Part: "sequences", Extra: map[string]any{"scripts": srcs}})
 		}
 	})
-	maxK := 3
+	maxK := report.Pick(ctx, 3, 4)
 	part(ctx, "commands", -1, func(c *explore.Chooser) {
 		name := names[c.Choose(len(names), "name")]
 		k := c.Choose(maxK+1, "nargs")
 		alphabet := words
-		if k == 3 || (k == 2 && false) {
+		if k == 3 {
 			alphabet = report.Pick(ctx, reduced, words)
+		}
+		if k == 4 {
+			alphabet = reduced
 		}
 		st := &yc.Stmt{K: yc.SCommand, Cmd: name}
 		for i := 0; i < k; i++ {
